@@ -229,7 +229,8 @@ def sign_and_step_rules(ck, F, ty, fam, tag, tr_, body):
         ck.inst("K7", what + ":final", fin_ok, body.span, whyf)
 
 
-def run(ck, F, tier):
+def run(ck, F, tier, only=None):
+    """only: a set of rule ids when another property borrows some of these rules (the others are then not computed)"""
     ck.explanation = (
         "Decided (S): K1 every check rule emits exactly one message per neighbour, addressed to that neighbour (flooding: one send per "
         "element of the incoming slice with dest = its source tag; A-Min*: one send to the least reliable input plus one per j != argmin; "
@@ -503,8 +504,11 @@ def run(ck, F, tier):
                         "the box-plus fold skips exactly the least reliable element (%d fold update(s), all under index != argmin: %s), argmin by |value| (%s)" % (
                             len(folds), bool(folds) and all(folds), abs_ok))
             if fam in ("minstarapproxf", "minstarapproxi8", "aminstarf", "aminstari8"):
-                sign_and_step_rules(ck, F, ty, fam, tag, tr_, body)
+                if only is None or {"K5", "K7"} & set(only):
+                    sign_and_step_rules(ck, F, ty, fam, tag, tr_, body)
 
+    if only is not None and set(only) <= {"K1", "K2", "K5", "K7"}:
+        return
     # ---- K6 -------------------------------------------------------------------------------------------------
     from .c10 import scratch_discipline
     from ..decmodel import self_field_uses
